@@ -186,7 +186,7 @@ class Case:
             for k in range(3):
                 tot = math.fsum(m[i] * got[i][k] for i in range(N))
                 scale = math.fsum(m[i] * float(sabs[i][k]) for i in range(N))
-                if abs(tot) > (16 + 2 * N) * U * scale + 1e-300:
+                if not (abs(tot) <= (16 + 2 * N) * U * scale + 1e-300):
                     V.append(("momentum:%s" % routine, "sum m_i a_i = %.3g in component %d although all particles are active (scale %.3g) [%s]" % (tot, k, scale, tag)))
                     break
         return V, 1 if N >= 2 else 0
@@ -248,7 +248,7 @@ class Case:
                 B += 12 * LD(G) * LD(m[k]) * sk * sk * rho / (rho * rho + e2) ** LD(2.5)
             err = math.sqrt(sum((got[i][c] - float(ref[i][c])) ** 2 for c in range(3)))
             rnd = 64 * U * sum(float(sabs[i][c]) for c in range(3))
-            if err > rnd:
+            if not (err <= rnd):
                 approx = 1
             if not err <= float(B) + rnd:
                 V.append(("tree-multipole-bound", "particle %d: |a_tree - a_direct| = %.3g exceeds the monopole bound %.3g (|a_direct| = %.3g) [%s]" % (
@@ -316,7 +316,7 @@ class Case:
         for i in range(1, N):
             for c in range(3):
                 tol = (64 + 8 * N) * U * float(scale[i][c]) + 1e-300
-                if abs(float(gj[i][c] - want[i][c])) > tol:
+                if not (abs(float(gj[i][c] - want[i][c])) <= tol):
                     V.append(("force:jacobi", "Jacobi transform of the routine's accelerations, particle %d component %d: %r, the interaction Hamiltonian gives %r (|diff| %.3g, tolerance %.3g) [%s]" % (
                         i, c, float(gj[i][c]), float(want[i][c]), abs(float(gj[i][c] - want[i][c])), tol, tag)))
                     return V, 1
